@@ -690,3 +690,86 @@ pub(crate) fn h_merge_cross_kind() {
         vrt_check(total == 2, "C08 a same-name element of another kind in the same namespace is added under a fresh name");
     }
 }
+
+// ------------------------------------------------------------------ C16: /include is transparent for loading and preserved by writing
+
+const INC_ELEMS: &[&str] = &[
+    "/begin MEASUREMENT ms \"\" UBYTE NO_COMPU_METHOD 0 0 0 255\n/end MEASUREMENT\n",
+    "/begin UNIT un \"\" \"\" DERIVED\n/end UNIT\n",
+    "/begin COMPU_METHOD cm \"\" IDENTICAL \"%6.3\" \"\"\n/end COMPU_METHOD\n",
+];
+
+/// split a document at element boundaries into a main file and include files (quoted / unquoted names, nesting depth <= 2)
+pub(crate) fn h_include_transparent() {
+    let head = "ASAP2_VERSION 1 71\n/begin PROJECT p \"\"\n/begin MODULE m \"\"\n";
+    let tail = "/end MODULE\n/end PROJECT\n";
+    // which of the three elements live in the include file(s): 0 = main, 1 = inc1, 2 = inc2 (included from inc1)
+    let w0 = vrt_choice(2);
+    let w1 = vrt_choice(3);
+    let w2 = vrt_choice(3);
+    let quoted = vrt_choice(2) == 1;
+    let place = [w0, w1, w2];
+    let mut flat = String::from(head);
+    let mut main = String::from(head);
+    let mut inc1 = String::new();
+    let mut inc2 = String::new();
+    for i in 0..3 {
+        flat.push_str(INC_ELEMS[i]);
+        match place[i] { 0 => main.push_str(INC_ELEMS[i]), 1 => inc1.push_str(INC_ELEMS[i]), _ => inc2.push_str(INC_ELEMS[i]) }
+    }
+    let uses2 = !inc2.is_empty();
+    let uses1 = !inc1.is_empty() || uses2;
+    if uses2 { inc1.push_str("/include inc2.a2l\n"); }
+    if uses1 { main.push_str(if quoted { "/include \"inc1.a2l\"\n" } else { "/include inc1.a2l\n" }); }
+    flat.push_str(tail);
+    main.push_str(tail);
+    vrt_fs_write("inc2.a2l", inc2.as_bytes());
+    vrt_fs_write("inc1.a2l", inc1.as_bytes());
+    let path = vrt_fs_write("main.a2l", main.as_bytes());
+    let (flat_file, _) = load_from_string(&flat, None, true).unwrap();
+    match load(&path, None, true) {
+        Ok((mut file, log)) => {
+            vrt_check(log.is_empty(), "C16 a file with includes loads without diagnostics");
+            vrt_check(file == flat_file, "C16 loading through /include yields the same model as loading the flattened text");
+            let out = file.write_to_string();
+            if uses1 {
+                vrt_check(out.contains("/include"), "C16 writing reproduces the include directive");
+                vrt_check(!out.contains("MEASUREMENT") || place[0] == 0, "C16 included elements are not written into the including file");
+            }
+            // the written main file, in the same directory, loads to an equal model
+            let path2 = vrt_fs_write("main2.a2l", out.as_bytes());
+            match load(&path2, None, true) {
+                Ok((file2, _)) => vrt_check(file2 == flat_file, "C16 the written file loads to an equal model from the same directory"),
+                Err(_) => vrt_check(false, "C16 the written file loads again"),
+            }
+            file.merge_includes();
+            let out3 = file.write_to_string();
+            vrt_check(!out3.contains("/include"), "C16 merge_includes makes the output self-contained");
+            match load_from_string(&out3, None, true) {
+                Ok((file3, _)) => vrt_check(file3 == flat_file, "C16 the self-contained output loads to an equal model"),
+                Err(_) => vrt_check(false, "C16 the self-contained output loads"),
+            }
+        }
+        Err(_) => vrt_check(false, "C16 a file whose include files exist loads"),
+    }
+}
+
+/// a missing include file is an error naming the directive, not a panic or a partial result
+pub(crate) fn h_include_missing() {
+    let quoted = vrt_choice(2) == 1;
+    let nested = vrt_choice(2) == 1;
+    let mut main = String::from("ASAP2_VERSION 1 71\n/begin PROJECT p \"\"\n/begin MODULE m \"\"\n");
+    main.push_str(if quoted { "/include \"inc1.a2l\"\n" } else { "/include inc1.a2l\n" });
+    main.push_str("/end MODULE\n/end PROJECT\n");
+    if nested {
+        vrt_fs_write("inc1.a2l", b"/include gone.a2l\n");
+    }
+    let path = vrt_fs_write("mainx.a2l", main.as_bytes());
+    match load(&path, None, false) {
+        Ok(_) => vrt_check(nested == false && false, "C16 a missing include file is reported as an error"),
+        Err(e) => {
+            let msg = e.to_string();
+            vrt_check(msg.contains(if nested { "gone.a2l" } else { "inc1.a2l" }), "C16 the error names the include directive that failed");
+        }
+    }
+}
